@@ -30,7 +30,14 @@ static int failures;
 void vp_native_assert_fail(int id, const char* txt) { printf("ASSERT-FAIL id=%d %s\n", id, txt); fflush(stdout); failures++; }
 void vp_native_assume_fail(void) { printf("ASSUME-FAIL\n"); fflush(stdout); exit(3); }
 void vp_native_dump(const int* g, int ng, unsigned cov) { (void)g; (void)ng; (void)cov; }
-static void diverge(const char* why) { printf("RT-DIVERGENCE %s (thread %d)\n", why, vp_cur); fflush(stdout); exit(5); }
+static __thread int me;
+/* a blocking primitive whose condition is false in sequential context (setup / final): nobody else can run - the encoding reports
+   the same self-deadlock (vp_plain_block) */
+static void seq_block(void) {
+  vp_native_assert_fail(-1, "blocking primitive not enabled in sequential/atomic context (self-deadlock)");
+  printf("RT-END all_done=1 failures=%d\n", failures); fflush(stdout); _exit(1);
+}
+static void diverge(const char* why) { if (me == 0 && !strncmp(why, "B:", 2)) seq_block(); printf("RT-DIVERGENCE %s (thread %d)\n", why, vp_cur); fflush(stdout); exit(5); }
 
 /* ---- baton */
 static pthread_mutex_t bm = PTHREAD_MUTEX_INITIALIZER;
@@ -40,7 +47,6 @@ static unsigned quota[VP_MAXT];
 static int done_[VP_MAXT];
 static int pend_kind[VP_MAXT]; static char* pend_a[VP_MAXT]; static char* pend_b[VP_MAXT];
 static unsigned long store_events, park_store_events[VP_MAXT];
-static __thread int me;
 static void give(int t) { pthread_mutex_lock(&bm); turn = t; pthread_cond_broadcast(&bc); pthread_mutex_unlock(&bm); }
 static void await(int t) { pthread_mutex_lock(&bm); while (turn != t) pthread_cond_wait(&bc, &bm); pthread_mutex_unlock(&bm); }
 static void park(void) { int t = me; give(0); await(t); vp_cur = t; }
@@ -62,13 +68,13 @@ int32_t vp_mutex_owner(char* m) { return vp_mutex_owner_of(m); }
 int32_t vp_rw_state(char* l) { return vp_rw_state_of(l); }
 
 /* ---- model wrappers for the renamed externals */
-int vp_rt_pthread_mutex_lock(char* m) { ev_point(4, VP_B_MUTEX, m, 0); if (!vp_mutex_free(m)) diverge("mutex_lock: not free"); return vp_mutex_lock(m); }
+int vp_rt_pthread_mutex_lock(char* m) { ev_point(4, VP_B_MUTEX, m, 0); if (!vp_mutex_free(m)) diverge("B:mutex_lock: not free"); return vp_mutex_lock(m); }
 int vp_rt_pthread_mutex_trylock(char* m) { ev_point(4, VP_B_NONE, 0, 0); return vp_mutex_trylock(m); }
 int vp_rt_pthread_mutex_unlock(char* m) { ev_point(4, VP_B_NONE, 0, 0); return vp_mutex_unlock(m); }
 int vp_rt_pthread_mutex_clocklock(char* m, int c, char* ts) { ev_point(4, VP_B_TIMED, m, 0); if (!(vp_mutex_free(m) || vp_timeout_fires())) diverge("clocklock"); return vp_mutex_clocklock(m, c, ts); }
 int vp_rt_pthread_mutex_timedlock(char* m, char* ts) { ev_point(4, VP_B_TIMED, m, 0); if (!(vp_mutex_free(m) || vp_timeout_fires())) diverge("timedlock"); return vp_mutex_timedlock(m, ts); }
-int vp_rt_pthread_rwlock_rdlock(char* l) { ev_point(4, VP_B_RD, l, 0); if (!vp_rw_can_read(l)) diverge("rdlock"); return vp_rw_rdlock(l); }
-int vp_rt_pthread_rwlock_wrlock(char* l) { ev_point(4, VP_B_WR, l, 0); if (!vp_rw_can_write(l)) diverge("wrlock"); return vp_rw_wrlock(l); }
+int vp_rt_pthread_rwlock_rdlock(char* l) { ev_point(4, VP_B_RD, l, 0); if (!vp_rw_can_read(l)) diverge("B:rdlock"); return vp_rw_rdlock(l); }
+int vp_rt_pthread_rwlock_wrlock(char* l) { ev_point(4, VP_B_WR, l, 0); if (!vp_rw_can_write(l)) diverge("B:wrlock"); return vp_rw_wrlock(l); }
 int vp_rt_pthread_rwlock_tryrdlock(char* l) { ev_point(4, VP_B_NONE, 0, 0); return vp_rw_tryrdlock(l); }
 int vp_rt_pthread_rwlock_trywrlock(char* l) { ev_point(4, VP_B_NONE, 0, 0); return vp_rw_trywrlock(l); }
 int vp_rt_pthread_rwlock_clockrdlock(char* l, int c, char* ts) { ev_point(4, VP_B_TIMED, l, 0); if (!(vp_rw_can_read(l) || vp_timeout_fires())) diverge("clockrdlock"); return vp_rw_clockrdlock(l, c, ts); }
@@ -86,7 +92,7 @@ static int cv_wait_common(char* cv, char* mx, int timed, char* ts) {
   ev_point(4, VP_B_NONE, 0, 0);
   vp_cv_wait_begin(cv, mx);
   ev_point(4, timed ? VP_B_CVT : VP_B_CV, cv, mx);
-  if (!vp_cv_can_wake(cv, mx, timed)) diverge("cv wake not enabled");
+  if (!vp_cv_can_wake(cv, mx, timed)) diverge("B:cv wake not enabled");
   return vp_cv_wait_end(cv, mx, timed, ts);
 }
 void vp_rt__ZNSt18condition_variable4waitERSt11unique_lockISt5mutexE(char* cv, char* lk) { cv_wait_common(cv, *(char**)lk, 0, 0); }
@@ -158,6 +164,11 @@ int main(int argc, char** argv) {
     if (pos_ - p0 > draws && draws < 100000) diverge("more draws consumed than in the encoding");
     /* a context without a drawn budget is a solo phase: scheduled alone with an unlimited budget the thread must finish */
     if (!drawn && !done_[t]) vp_native_assert_fail(-1, "solo run: thread cannot finish although it is the only one scheduled");
+    /* the thread stands at a lock acquisition that is not enabled: same bookkeeping and monitor (C02 'reader blocked merely by
+       readers') as the encoding runs when a context ends blocked */
+    if (!done_[t] && (pend_kind[t] == VP_B_MUTEX || pend_kind[t] == VP_B_RD || pend_kind[t] == VP_B_WR) && !enabled_now(t)) {
+      vp_cur = t; vp_blocked(t, pend_kind[t], pend_a[t], pend_b[t]); vp_cur = 0;
+    }
   }
   vp_cur = 0; me = 0;
   int all = 1, can = 0;
